@@ -151,3 +151,60 @@ Section EncProofs.
     inversion Hb; subst. eauto.
   Qed.
 End EncProofs.
+
+(* ------------------------------------------------------------------ policy lookup per column, policy histories *)
+Lemma desc_eqb_eq : forall a b, desc_eqb a b = true <-> a = b.
+Proof.
+  intros [[a1 a2] a3] [[b1 b2] b3]. unfold desc_eqb. rewrite !andb_true_iff, !Z.eqb_eq. split.
+  - intros [[H1 H2] H3]. subst. reflexivity.
+  - intros H. inversion H. auto.
+Qed.
+
+Section PolicyProofs.
+  Variable V T : Type.
+  Variable ser : T -> V -> option (list Z).
+  Variable deser : T -> list Z -> option V.
+  Variable enc dec : list Z -> list Z -> list Z -> list Z.
+  Hypothesis aes_roundtrip : forall k iv x, (length x mod 16 = 0)%nat -> dec k iv (enc k iv x) = x.
+  Hypothesis codec_roundtrip : forall t v b, ser t v = Some b -> deser t b = Some v.
+
+  Lemma add_column_find : forall (p : policy T) d k t d',
+    pol_find T (add_column T p d k t) d' = if desc_eqb d d' then Some (k, t) else pol_find T p d'.
+  Proof. intros. reflexivity. Qed.
+
+  (* at ANY policy state: rows written through a prepared statement come back unchanged *)
+  Lemma round_transparent : forall (p : policy T) ms iv rows wire, length iv = 16%nat ->
+    Forall (fun r => length r <= length ms)%nat rows ->
+    bind_rows V T ser enc iv (map (resolve T p) ms) rows = Some wire ->
+    snd (pstep V T ser deser enc dec p (PRound V T ms iv rows)) = OutRound V (Some wire) (Some rows).
+  Proof.
+    intros p ms iv rows wire Hiv Hall Hb. cbn [pstep snd]. rewrite Hb. f_equal.
+    apply (rows_roundtrip V T ser deser enc dec aes_roundtrip codec_roundtrip iv _ rows wire Hiv); [|exact Hb].
+    rewrite map_length. exact Hall.
+  Qed.
+
+  Lemma pstep_round_keeps : forall (p : policy T) ms iv rows, fst (pstep V T ser deser enc dec p (PRound V T ms iv rows)) = p.
+  Proof. reflexivity. Qed.
+
+  Lemma pstep_decode_keeps : forall (p : policy T) ms wire, fst (pstep V T ser deser enc dec p (PDecode V T ms wire)) = p.
+  Proof. reflexivity. Qed.
+
+  (* each marker is looked up under its OWN (keyspace, table, name) *)
+  Lemma sent_by_own_desc : forall (p : policy T) iv vals ms w i m, 
+    bind_row V T ser enc iv (map (resolve T p) ms) vals = Some w -> nth_error ms i = Some m ->
+    (forall k t x, pol_find T p (m_desc m) = Some (k, t) -> nth_error vals i = Some (Some x) ->
+       exists b, ser t x = Some b /\ nth_error w i = Some (Some (encrypt enc k iv b))) /\
+    (forall x, pol_find T p (m_desc m) = None -> nth_error vals i = Some (Some x) ->
+       exists b, ser (m_type m) x = Some b /\ nth_error w i = Some (Some b)).
+  Proof.
+    intros p iv vals ms w i m Hb Hm. pose proof (map_nth_error (resolve T p) i ms Hm) as Hc. split.
+    - intros k t x Hf Hv.
+      destruct (sent_encrypted V T ser enc iv vals _ w i (resolve T p m) k x Hb Hc) as [b [Hs Hn]]; auto.
+      + unfold resolve. rewrite Hf. reflexivity.
+      + exists b. unfold resolve in Hs. rewrite Hf in Hs. auto.
+    - intros x Hf Hv.
+      destruct (plain_sent_plain V T ser enc iv vals _ w i (resolve T p m) x Hb Hc) as [b [Hs Hn]]; auto.
+      + unfold resolve. rewrite Hf. reflexivity.
+      + exists b. unfold resolve in Hs. rewrite Hf in Hs. auto.
+  Qed.
+End PolicyProofs.
